@@ -60,6 +60,7 @@ type xBody struct {
 	Catches []*xCatch
 	Class   string // for method/ctor
 	Param   string // "" = no parameter
+	Recur   bool   // the function calls itself with Param-1 while Param > 0 (bounded recursion)
 }
 
 type xClass struct {
@@ -226,8 +227,17 @@ func genExcProgram(t *zsim.Tape) *xProgram {
 			if t.Draw(2) == 1 {
 				fb.Param = xPool[t.Draw(len(xPool))]
 			}
+			if t.Draw(5) == 4 {
+				fb.Param, fb.Recur = "层", true // never reassigned: 层 is not in the name pool
+			}
 			fs, cs := visible()
 			fb.Stmts = g.stmts(fb, fs, cs, 1+t.Draw(4), 1, true)
+			if fb.Recur {
+				// the self-call sits at a drawn position of the top level (never inside a loop)
+				pos := t.Draw(len(fb.Stmts))
+				rs := &xStmt{Kind: "recurse", Fn: fb.Name, Var: g.local()}
+				fb.Stmts = append(fb.Stmts[:pos], append([]*xStmt{rs}, fb.Stmts[pos:]...)...)
+			}
 			g.catches(fb, fs, cs)
 			m.Funcs = append(m.Funcs, fb)
 			g.funcs = append(g.funcs, fb)
@@ -386,6 +396,9 @@ func (g *xGen) stmtsIn(b *xBody, fs []*xBody, cs []*xClass, n int, depth int, to
 			st := &xStmt{Kind: "callf", Fn: f.Name, Var: g.local()}
 			if f.Param != "" {
 				st.HasArg, st.Arg = true, g.t.Draw(50)
+			}
+			if f.Recur {
+				st.Arg = g.t.Draw(4) // recursion depth 0..3
 			}
 			// one call in four is the second argument of a 显示 that continues on the next line
 			st.Multi = g.t.Draw(4) == 3
@@ -555,6 +568,10 @@ func (x *xRender) stmts(indent int, ss []*xStmt) {
 			}
 			s.Line = x.emit(indent, fmt.Sprintf("令%s = %s", s.Var, call))
 			x.emit(indent, fmt.Sprintf("（显示：“%s=”、%s）", s.Var, s.Var))
+		case "recurse":
+			s.Line = x.emit(indent, "如果层 > 0：")
+			s.Num = x.emit(indent+1, fmt.Sprintf("令%s = （%s：层 - 1）", s.Var, s.Fn))
+			x.emit(indent+1, fmt.Sprintf("（显示：“%s=”、%s）", s.Var, s.Var))
 		case "new":
 			s.Line = x.emit(indent, fmt.Sprintf("令%s = （新建%s：%d）", s.Var, s.Class, s.Num))
 		case "showthis":
@@ -834,6 +851,16 @@ func (m *xRef) run(ss []*xStmt) (ret *xVal, ex *xRaise) {
 				if r, e := m.block(fr, s.Then); r != nil || e != nil {
 					return r, e
 				}
+			}
+		case "recurse":
+			if lv := fr.get("层"); lv.num != nil && *lv.num > 0 {
+				fr.line = s.Num // the call statement inside the branch
+				v, e := m.call(m.funcs[s.Fn], nil, &xStmt{HasArg: true, Arg: *lv.num - 1})
+				if e != nil {
+					return nil, e
+				}
+				m.display = append(m.display, s.Var+"= "+v.String())
+				fr.line = s.Line
 			}
 		case "callf":
 			v, e := m.call(m.funcs[s.Fn], nil, s)
